@@ -30,10 +30,11 @@ const (
 	kRWFile        // WithFSMount(fs.FS whose files are *os.File opened O_RDWR, "/")
 	kSubFS         // WithFSMount(fs.Sub(os.DirFS(sandbox), "mnt"), "/")
 	kRichFS        // WithFSMount(struct embedding os.DirFS + ReadDirFS/StatFS/ReadFileFS, "/")
+	kDeriv         // mount list produced by an FSConfig derivation (deriv.go); the mount under test is w.pre
 	nKinds
 )
 
-var kindNames = [nKinds]string{"rodir", "dirfs", "mapfs", "dualfs", "rwfile", "subfs", "richfs"}
+var kindNames = [nKinds]string{"rodir", "dirfs", "mapfs", "dualfs", "rwfile", "subfs", "richfs", "deriv"}
 
 func kindByName(n string) int {
 	for i, k := range kindNames {
@@ -231,10 +232,14 @@ var worldSeq atomic.Int64
 // world = one runtime + one guest instance + one private host tree (or MapFS) for one mount kind.
 type world struct {
 	kind      int
-	ext       bool   // extended tree: additionally the directory symlink, symlink chains, dangling-inside, "." and ".." symlinks
-	prov      int    // configuration provenance (pDirect ...)
-	sibDir    string // MapFS + provenance: host directory the discarded writable siblings point at
-	cross     bool   // a writable WithDirMount(rwDir, "/rw") is preopened first (fd 3); the immutable mount is fd 4
+	ext       bool  // extended tree: additionally the directory symlink, symlink chains, dangling-inside, "." and ".." symlinks
+	deriv     []dop // kDeriv: the FSConfig derivation
+	derivFC   wazero.FSConfig
+	derivIdx  int        // kDeriv: index of the mount under test
+	first     api.Module // kDeriv: first module of the same FSConfig, kept open
+	prov      int        // configuration provenance (pDirect ...)
+	sibDir    string     // MapFS + provenance: host directory the discarded writable siblings point at
+	cross     bool       // a writable WithDirMount(rwDir, "/rw") is preopened first (fd 3); the immutable mount is fd 4
 	rwDir     string
 	pre       uint64 // descriptor of the immutable mount's root
 	tmpRoot   string
@@ -322,7 +327,12 @@ func (w *world) freshTree() {
 	} else {
 		w.base = filepath.Join(w.tmpRoot, fmt.Sprintf("w%d", worldSeq.Add(1)))
 		must(os.Mkdir(w.base, 0o755))
-		makeTree(w.base, w.ext)
+		if w.kind == kDeriv {
+			makeDerivTree(w.base)
+			w.derivFC = nil // host paths changed
+		} else {
+			makeTree(w.base, w.ext)
+		}
 	}
 	if w.cross {
 		w.resetRW()
@@ -387,6 +397,9 @@ func (w *world) writableDir() string {
 
 // moduleConfig builds the configuration the guest is instantiated with, along the world's provenance.
 func (w *world) moduleConfig() wazero.ModuleConfig {
+	if w.kind == kDeriv {
+		return wazero.NewModuleConfig().WithName("").WithFSConfig(w.derivFSConfig())
+	}
 	base := wazero.NewFSConfig()
 	guest := "/"
 	if w.cross {
@@ -425,6 +438,20 @@ func (w *world) moduleConfig() wazero.ModuleConfig {
 	return nil
 }
 
+// secondModule instantiates another guest from the same configuration while the first stays open.
+func (w *world) secondModule() {
+	w.dropSecond()
+	w.first, w.mod = w.mod, nil
+	w.instantiate()
+}
+
+func (w *world) dropSecond() {
+	if w.first != nil {
+		w.first.Close(bg)
+		w.first = nil
+	}
+}
+
 func (w *world) instantiate() {
 	if w.mod != nil {
 		w.mod.Close(bg)
@@ -451,6 +478,7 @@ func (w *world) close() {
 	if w.mod != nil {
 		w.mod.Close(bg)
 	}
+	w.dropSecond()
 	w.rt.Close(bg)
 	w.closeDirFDs()
 	if w.base != "" {
